@@ -63,7 +63,21 @@ def generate(seed, idx, tier):
     if not common.sharded_mesh_ok(n, D, mesh):
       mesh = 1
   T = rng.randrange(5, 14) if tier == 'quick' else rng.randrange(8, 31)
+  tiny = not fd and rng.random() < 0.15
+  if tiny:
+    # float32 roots of statistics far below 1: gradients ~1e-5, the initial
+    # epsilon*I decayed away
+    x64 = False
+    cfg['beta2'] = pick(rng, [0.5, 0.9])
+    cfg['matrix_epsilon'] = pick(rng, [1e-6, 1e-12])
+    T = rng.randrange(10, 18)
   ops = common.gen_history(rng, cfg, len(tree), T, 0.0, scale_jumps=0.3)
+  if tiny:
+    sc = 10.0 ** -rng.randrange(4, 7)
+    for op in ops:
+      if op['op'] == 'STEP':
+        op['scale'] = sc
+        op.pop('leaf_scales', None)
   if fd:
     # zero / low-rank ticks make deflated eigenvalues and the tail exactly zero
     for op in ops:
@@ -71,7 +85,7 @@ def generate(seed, idx, tier):
         op['kind'] = pick(rng, ['zero', 'lowrank', 'onehot_leaf'])
         op['rank'] = 1
         op['hot'] = rng.randrange(len(tree))
-  return {'system': 'ds', 'class': f"{mode}_{'fd' if fd else 'r' + ('neg' if r < 0 else 'pos')}",
+  return {'system': 'ds', 'class': f"{mode}_{'fd' if fd else 'tiny' if tiny else 'r' + ('neg' if r < 0 else 'pos')}",
           'x64': x64, 'mode': mode, 'D': D, 'mesh': mesh, 'config': cfg,
           'tree': tree, 'lr': ds_gen.gen_lr(rng),
           'param_seed': rng.randrange(1000), 'ops': ops,
